@@ -367,6 +367,17 @@ func (c *codecCtx) decCase(mi *msgInfo, b []byte, merge, discard bool, init *V) 
 	}
 	o.kase("DEC", []string{si.id, fmt.Sprint(mi.idx), flags, hx(b), iv}, res)
 	o.prop("C07", bytes.Equal(in, b), "Unmarshal modified its input "+hx(b))
+	if pan == nil && err == nil {
+		// C07: the message must not alias the input: overwrite the whole input, read the struct again
+		for i := range in {
+			in[i] ^= 0xFF
+		}
+		after := "ok " + si.fromGo(mi, reflect.ValueOf(q)).String()
+		o.withKey("alias/"+si.id+"."+string(mi.md.Name())).prop("C07", after == res, fmt.Sprintf("the message decoded from %s into %s.%s shares memory with the input buffer: after overwriting the input it reads %s, before %s", hx(b), si.id, mi.md.Name(), after, res))
+		for i := range in {
+			in[i] ^= 0xFF
+		}
+	}
 	return res, q
 }
 
